@@ -86,8 +86,7 @@ class _LinearOp():
                 tmp = tn.diagonal(coreA, i, 1, 2)
                 tmp = tnf.pad(tmp, ((i) if i > 0 else 0, abs(i) if i < 0 else 0, 0, 0, 0, 0))
                 self.bands.append(tmp.clone())
-        else:
-            self.coreA = coreA
+        self.coreA = coreA
 
         # tme = datetime.datetime.now()
         if prec == 'c':
